@@ -32,7 +32,8 @@ type StandardClass struct {
 	pkg             *slip.Package
 	precedence      []slip.Symbol
 	defaultInitArgs map[string]slip.Object
-	initArgs        map[string]*SlotDef // map with keys of initargs
+	initArgs        map[string]*SlotDef   // map with keys of initargs
+	sharedInitArgs  map[string][]*SlotDef // the other slots of initargs declared for more than one slot
 	initForms       map[string]*SlotDef
 	methods         map[string]*slip.Method
 	baseClass       slip.Symbol
@@ -386,12 +387,13 @@ func (c *StandardClass) mergeSupers() bool {
 		m.Combinations = append(m.Combinations, im.Combinations...)
 	}
 	c.initArgs = map[string]*SlotDef{}
+	c.sharedInitArgs = map[string][]*SlotDef{}
 	c.initForms = map[string]*SlotDef{}
 	for i := len(c.inherit) - 1; 0 <= i; i-- {
 		if sc, ok := c.inherit[i].(isStandardClass); ok {
 			for _, sd := range sc.slotDefMap() {
 				for _, ia := range sd.initargs {
-					c.initArgs[string(ia)] = sd
+					c.addInitArg(string(ia), sd)
 				}
 				if sd.initform != slip.Unbound {
 					c.initForms[sd.name] = sd
@@ -401,7 +403,7 @@ func (c *StandardClass) mergeSupers() bool {
 	}
 	for _, sd := range c.slotDefs {
 		for _, ia := range sd.initargs {
-			c.initArgs[string(ia)] = sd
+			c.addInitArg(string(ia), sd)
 		}
 		if sd.initform != slip.Unbound {
 			c.initForms[sd.name] = sd
@@ -455,6 +457,29 @@ func (c *StandardClass) slotDefMap() map[string]*SlotDef {
 
 func (c *StandardClass) initArgDef(name string) *SlotDef {
 	return c.initArgs[name]
+}
+
+func (c *StandardClass) sharedInitArgDefs(name string) []*SlotDef {
+	return c.sharedInitArgs[name]
+}
+
+// addInitArg registers sd as a slot filled by the initarg. An initarg can be
+// declared for more than one slot, in the class or in an inherited class. The
+// first slot is kept in initArgs and any other in sharedInitArgs. A more
+// specific declaration of a slot replaces the inherited one.
+func (c *StandardClass) addInitArg(initarg string, sd *SlotDef) {
+	first := c.initArgs[initarg]
+	if first == nil || first.name == sd.name {
+		c.initArgs[initarg] = sd
+		return
+	}
+	for i, xsd := range c.sharedInitArgs[initarg] {
+		if xsd.name == sd.name {
+			c.sharedInitArgs[initarg][i] = sd
+			return
+		}
+	}
+	c.sharedInitArgs[initarg] = append(c.sharedInitArgs[initarg], sd)
 }
 
 func (c *StandardClass) initFormMap() map[string]*SlotDef {
